@@ -352,6 +352,8 @@ type recChain struct {
 
 	// hooks run inside callbacks (harness-owned interleavings)
 	onVerify func(parent *out, b *blk) (probed bool, health error)
+	onPreAcc func(b *blk)
+	onPreRej func(b *blk)
 }
 
 func (c *recChain) Initialize(_ context.Context, _ snow.ChainInput, vm *snow.VM[*blk, *out, *acc]) (snow.ChainIndex[*blk], *out, *acc, bool, error) {
@@ -380,12 +382,18 @@ func (c *recChain) Initialize(_ context.Context, _ snow.ChainInput, vm *snow.VM[
 		r.mu.Lock()
 		r.nPreAcc = append(r.nPreAcc, b)
 		r.mu.Unlock()
+		if c.onPreAcc != nil {
+			c.onPreAcc(b) // engine thread, inside Accept, chain lock held
+		}
 		return nil
 	}})
 	vm.AddPreRejectedSub(event.SubscriptionFunc[*blk]{NotifyF: func(_ context.Context, b *blk) error {
 		r.mu.Lock()
 		r.nPreRej = append(r.nPreRej, b)
 		r.mu.Unlock()
+		if c.onPreRej != nil {
+			c.onPreRej(b) // engine thread, inside Reject
+		}
 		return nil
 	}})
 	if !c.initReady {
@@ -583,6 +591,7 @@ type eng struct {
 
 	// C21 race schedule: the sibling rejections owed for the last accept of a path are deferred
 	deferRejects bool
+	skipTrace    bool
 	deferred     []ids.ID
 
 	knownF19 bool
@@ -1176,11 +1185,13 @@ func (e *eng) acceptOne(id ids.ID, lastOfPath bool) error {
 	if err := e.checkIdx(s, id); err != nil {
 		return err
 	}
-	if _, err := e.checkVerCalls(s, map[ids.ID]bool{}, fmt.Sprintf("Accept(%s)", m.b)); err != nil {
-		return err
-	}
-	if err := e.checkAccepts(s, false); err != nil {
-		return err
+	if !e.skipTrace { // (a hand-over parked behind this Accept is running by now: judged when it is joined)
+		if _, err := e.checkVerCalls(s, map[ids.ID]bool{}, fmt.Sprintf("Accept(%s)", m.b)); err != nil {
+			return err
+		}
+		if err := e.checkAccepts(s, false); err != nil {
+			return err
+		}
 	}
 	if !e.ready {
 		// vacuous accept: the moving sync target is announced once, nothing is executed
